@@ -78,7 +78,7 @@ pub fn run(ctx: &mut Ctx) {
     }
     names.sort();
     let cache = sorted_cache(&is);
-    let n = ctx.n(40000, 1000000);
+    let n = ctx.n(40000, 6000000);
     for k in 0..n as u64 {
         if !ctx.mine(k) {
             continue;
@@ -128,7 +128,7 @@ pub fn run(ctx: &mut Ctx) {
         }
     }
     // trees from pushr's own generator
-    let ng = ctx.n(10000, 200000);
+    let ng = ctx.n(10000, 1000000);
     for k in 0..ng as u64 {
         if !ctx.mine(k) {
             continue;
